@@ -34,6 +34,7 @@ const HEALTH_KINDS: &[&str] = &[
     "empty",
     "truncated",
     "dangling-symlink",
+    "exports-undefined",
 ];
 
 fn key_of(short: &str) -> String {
@@ -59,6 +60,10 @@ pub fn lib_source(spec: &Value) -> String {
             spec["start"].as_i64().unwrap_or(0),
             t = tag
         );
+    }
+    if spec["void"].as_bool().unwrap_or(false) {
+        // a library that exports nothing at all: imported for its effects, any number of times
+        return "(define-library (lib void)\n  (import (scheme base))\n  (export)\n  (begin (define unused 1)))\n".to_string();
     }
     if spec["spo"].as_bool().unwrap_or(false) {
         // a library one of whose procedures ASSIGNS a name the library imported (an error by the
@@ -99,6 +104,10 @@ pub fn lib_source(spec: &Value) -> String {
     let renames = spec["renames"].as_bool().unwrap_or(false);
     let mut import_sets = vec!["(scheme base)".to_string()];
     for j in &imports {
+        if j == "void" {
+            import_sets.push(key_of(j));
+            continue;
+        }
         // dependencies are imported directly or through an import-set operator
         import_sets.push(match dep_style(spec, j) {
             1 => format!("(prefix {} {}:)", key_of(j), j),
@@ -126,7 +135,7 @@ pub fn lib_source(spec: &Value) -> String {
         format!("(define (use-plus-{} x) (+ x 1))", s),
         format!("(define (peek-secret-{}) secret)", s),
     ];
-    for j in &imports {
+    for j in imports.iter().filter(|j| j.as_str() != "void") {
         // only meaningful when the dependency is healthy; harmless otherwise
         exports.push(format!("via-{}-{}", s, j));
         body.push(format!("(define (via-{}-{}) ({}))", s, j, dep_next_name(spec, j)));
@@ -163,7 +172,7 @@ pub fn lib_source(spec: &Value) -> String {
     // a body that has an effect while it is being loaded: it calls a dependency's procedure,
     // once, in the order of the definitions
     if spec["load_effect"].as_bool().unwrap_or(false) {
-        if let Some(j) = imports.iter().find(|j| j.as_str() != "zz" && j.as_str() != s) {
+        if let Some(j) = imports.iter().find(|j| j.as_str() != "zz" && j.as_str() != s && j.as_str() != "void") {
             body.push(format!("(define loaded-{} ({}))", s, dep_next_name(spec, j)));
             exports.push(format!("loaded-{}", s));
         }
@@ -180,6 +189,10 @@ pub fn lib_source(spec: &Value) -> String {
     body.push(format!("(define k {})", 700 + spec["k"].as_i64().unwrap_or(1)));
     if let Some(j) = reexport_target(spec) {
         exports.push(format!("(rename {} bump-{}-from-{})", dep_next_name(spec, &j), j, s));
+    }
+    if spec["health"].as_str() == Some("exports-undefined") {
+        // the export list names something the body never defines: the library cannot be made
+        exports.push(format!("never-defined-{}", s));
     }
     if spec["health"].as_str() == Some("faulting-body") {
         let fault = spec["fault"].as_str().unwrap_or("(car 5)");
@@ -243,7 +256,7 @@ fn reexport_target(spec: &Value) -> Option<String> {
     let s = spec["short"].as_str().unwrap_or("");
     spec["imports"]
         .as_array()
-        .and_then(|a| a.iter().filter_map(|x| x.as_str()).find(|j| *j != "zz" && *j != s).map(|j| j.to_string()))
+        .and_then(|a| a.iter().filter_map(|x| x.as_str()).find(|j| *j != "zz" && *j != s && *j != "void").map(|j| j.to_string()))
 }
 
 /// bytes of the library file for its health; None = no regular file is written
@@ -253,7 +266,7 @@ fn lib_file_bytes(spec: &Value) -> Option<Vec<u8>> {
     // the define-library form spans from byte 0 to the last ')'
     let form_len = text.trim_end().len();
     match spec["health"].as_str().unwrap_or("healthy") {
-        "healthy" | "wrong-name" | "faulting-body" => {
+        "healthy" | "wrong-name" | "faulting-body" | "exports-undefined" => {
             // a library file is searched for the library it is asked for: other libraries and
             // ordinary forms before it are passed over
             let s = spec["short"].as_str().unwrap_or("a");
@@ -449,10 +462,13 @@ fn analyse(libs: &[Value], root: &str) -> BTreeSet<String> {
         let health = spec["health"].as_str().unwrap_or("healthy");
         let registered = spec["delivery"].as_str() == Some("registered");
         match health {
-            "healthy" | "faulting-body" => {
+            "healthy" | "faulting-body" | "exports-undefined" => {
                 readable.insert(n.clone());
                 if health == "faulting-body" {
                     causes.insert(spec["fault_kind"].as_str().unwrap_or("Type").to_string());
+                }
+                if health == "exports-undefined" {
+                    causes.insert(format!("Unbound(never-defined-{})", n));
                 }
                 if let Some(im) = spec["imports"].as_array() {
                     for j in im {
@@ -540,7 +556,7 @@ fn gen_lib(rng: &mut Rng, short: &str, imports: Vec<String>, health: &str, allow
     let (fault, fault_kind) = *rng.pick(FAULT_BODIES);
     let others: Vec<&str> = SHORTS.iter().copied().chain(["zz"]).filter(|t| *t != short).collect();
     let layout_other = *rng.pick(&others);
-    let delivery = if allow_registered && matches!(health, "healthy" | "faulting-body" | "missing") && rng.chance(1, 3) {
+    let delivery = if allow_registered && matches!(health, "healthy" | "faulting-body" | "missing" | "exports-undefined") && rng.chance(1, 3) {
         "registered"
     } else {
         "file"
@@ -586,6 +602,9 @@ fn external_names(spec: &Value) -> Vec<(String, String)> {
         let tag = spec["tag"].as_str().unwrap_or("uv");
         return vec![(format!("{}-next!", tag), "next".to_string()), (format!("{}-look", tag), "look".to_string())];
     }
+    if spec["void"].as_bool().unwrap_or(false) {
+        return vec![];
+    }
     if spec["spo"].as_bool().unwrap_or(false) {
         return vec![("spoil!".to_string(), "spoil".to_string()), ("spo-plus".to_string(), "use-plus".to_string())];
     }
@@ -615,6 +634,9 @@ fn external_names(spec: &Value) -> Vec<(String, String)> {
     if let Some(im) = spec["imports"].as_array() {
         for j in im {
             let j = j.as_str().unwrap();
+            if j == "void" {
+                continue;
+            }
             v.push((format!("via-{}-{}", s, j), format!("via:{}", j)));
         }
     }
@@ -630,7 +652,7 @@ fn external_names(spec: &Value) -> Vec<(String, String)> {
     }
     if spec["load_effect"].as_bool().unwrap_or(false) {
         if let Some(im) = spec["imports"].as_array() {
-            if im.iter().filter_map(|x| x.as_str()).any(|j| j != "zz" && j != s) {
+            if im.iter().filter_map(|x| x.as_str()).any(|j| j != "zz" && j != s && j != "void") {
                 v.push((format!("loaded-{}", s), "const".to_string()));
             }
         }
@@ -929,6 +951,23 @@ fn generate_c14(seed: u64, quick: bool) -> Value {
         };
         libs.push(gen_lib(&mut rng, &shorts[i], imports, health, true));
     }
+    // a library without exports, imported by some of the others and by the attempts themselves
+    let mut shorts = shorts;
+    if rng.chance(1, 4) {
+        for l in libs.iter_mut() {
+            if rng.chance(1, 2) {
+                if let Some(a) = l["imports"].as_array_mut() {
+                    a.push(json!("void"));
+                }
+            }
+        }
+        libs.push(json!({
+            "short": "void", "void": true, "imports": [], "health": "healthy",
+            "delivery": if rng.chance(1, 3) { "registered" } else { "file" },
+        }));
+        shorts.push("void".to_string());
+    }
+    let n = libs.len();
     // history: 1-4 import attempts, heal/break events in a third of the runs
     let with_events = rng.chance(1, 3);
     let attempts = rng.range(1, 4);
@@ -954,7 +993,7 @@ fn generate_c14(seed: u64, quick: bool) -> Value {
                 if spec["delivery"].as_str() != Some("registered") && rng.chance(2, 3) {
                     let healthy_now = spec["health"].as_str() == Some("healthy");
                     let new_health = if healthy_now {
-                        if rng.chance(1, 2) { "missing" } else { *rng.pick(&enabled) }
+                        if rng.chance(1, 2) || spec["void"].as_bool().unwrap_or(false) { "missing" } else { *rng.pick(&enabled) }
                     } else {
                         "healthy"
                     };
@@ -969,10 +1008,16 @@ fn generate_c14(seed: u64, quick: bool) -> Value {
             // heal or break one library between attempts
             let i = rng.upto(n);
             let healthy_now = current[i]["health"].as_str() == Some("healthy");
-            let new_health = if healthy_now { *rng.pick(&enabled) } else { "healthy" };
+            let new_health = if !healthy_now {
+                "healthy"
+            } else if current[i]["void"].as_bool().unwrap_or(false) {
+                "missing"
+            } else {
+                *rng.pick(&enabled)
+            };
             let mut spec = current[i].clone();
             spec["health"] = json!(new_health);
-            if spec["delivery"].as_str() == Some("registered") && !matches!(new_health, "healthy" | "faulting-body" | "missing") {
+            if spec["delivery"].as_str() == Some("registered") && !matches!(new_health, "healthy" | "faulting-body" | "missing" | "exports-undefined") {
                 spec["delivery"] = json!("file");
             }
             current[i] = spec.clone();
@@ -1564,7 +1609,7 @@ fn execute_c14(case: Value) -> RunResult {
                         }
                         for v in &allowed[i] {
                             let spec = &versions[i][*v];
-                            if matches!(spec["health"].as_str(), Some("healthy") | Some("faulting-body")) {
+                            if matches!(spec["health"].as_str(), Some("healthy") | Some("faulting-body") | Some("exports-undefined")) {
                                 kept.insert((i, *v));
                                 if let Some(im) = spec["imports"].as_array() {
                                     for j in im {
